@@ -49,6 +49,7 @@ THEOREMS = [
         "extrn_roundtrip set_wrap_roundtrip wrap_line_length tabled1_layout fixed_field_slicing "
         "dmig_structure dmig_form6_iff dmig_roundtrip dmig_ncol_form9 dmig_header_ncol "
         "int_field_roundtrip int_field_padL set_roundtrip set_any_wrap tabled1_roundtrip "
+        "spoint_lines_roundtrip csuper_lines_roundtrip extrn_lines_roundtrip "
         "dmig_roundtrip_converse dmig_assignments_iff dmig_reader_on_written dmig_frame_roundtrip "
         "dmig_value_field dmig_lines_cards dmig_text_roundtrip "
         "vecwrite_length_rule vecwrite_mismatch_raises vecwrite_broadcast wtgrids_packaging wtgrids_mismatch_raises "
@@ -110,8 +111,7 @@ PARTIAL = (
     "(int_field_roundtrip); the DMIG theorems on physical lines (dmig_lines_cards, dmig_text_roundtrip) cover integer-valued "
     "terms with at most 10 digits (the model's `fmtE9` renders exactly those; other values are compared through the oracle) "
     "and a name that nas_sscanf returns unchanged; "
-    "spoint_roundtrip / csuper_roundtrip / extrn_roundtrip remain stated on card fields (`Fld.val`), not on physical "
-    "lines; set_roundtrip assumes max_length >= the longest token (shorter max_length splits tokens: writer text is "
+    "set_roundtrip assumes max_length >= the longest token (shorter max_length splits tokens: writer text is "
     "correspondence-checked, no round trip claimed); rdcord2cards is modelled up to the twelve numbers per card handed to "
     "n2p.build_coords and bulk2uset up to the arrays handed to n2p.addgrid (geometry: C14; tied through the real "
     "build_coords and by the round-trip oracle); rddmig(expanded=True / square=True) and the op2 path are oracle-only"
@@ -119,8 +119,8 @@ PARTIAL = (
 MANIFEST = {
     "level_text": "Proof (Lean 4, kernel-checked, standard axioms only) about an exact, character-level model of the bulk-data "
     "writers and readers. Proved for all inputs: THRU compression is inverted by expansion and emits THRU exactly for "
-    "maximal runs; wtnasints lays any list out from any start field within 72 columns; SPOINT / CSUPER / EXTRN cards read "
-    "back the ids / id-dof pairs (card fields); a written integer field is read back exactly (int(format(n)) = n, any "
+    "maximal runs; wtnasints lays any list out from any start field within 72 columns; rdspoints(wtspoints(ids)) = ids, "
+    "rdcsupers(wtcsuper(id, grids)) = {id: [id, 0, grids]} and rdextrn(wtextrn(ids, dof)) = the pairs, on physical lines; a written integer field is read back exactly (int(format(n)) = n, any "
     "padding); rdsets(wtset(id, ids, max_length)) = {id: ids} on physical lines for every non-empty list of non-negative "
     "ids and every max_length >= the longest token, and for ANY way of breaking the tokens into lines (the regular "
     "expressions of rdsets are modelled as explicit scanners); rdtabled1(wttabled1(...)) on physical lines for every "
@@ -143,8 +143,7 @@ MANIFEST = {
     "provable; single real-field formats are C12, coordinate geometry C14.",
     "level_note": "Trusted: Lean kernel; propext, Classical.choice, Quot.sound; the Python harness; CPython integer "
     "formatting. Not proved (tied by correspondence / oracle only): parse(format(x)) of one real field (C12); DMIG text "
-    "with non-integer terms (the card-value theorems cover them through `enc`); SPOINT / CSUPER / EXTRN on physical lines "
-    "(card-field level proved); token splitting for max_length shorter than a token; n2p.build_coords / addgrid / "
+    "with non-integer terms (the card-value theorems cover them through `enc`); token splitting for max_length shorter than a token; n2p.build_coords / addgrid / "
     "mkcordcardinfo behind rdcord2cards / bulk2uset / uset2bulk (C14); rddmig(expanded / square) and op2 DMIG.",
     "technique": "Lean 4 proof (induction over run/line/column/character structure) + exact-text differential "
     "correspondence with pyyeti.nastran.bulk / pyyeti.writer writers and readers",
